@@ -1,21 +1,35 @@
 /-
   C04 — Every reply is a well-formed, self-consistently framed HTTP message.
 
-  Statements only; the proofs are in `Mhd.Proofs.RespInv` (response object), `Mhd.Proofs.ReplyParse`,
-  `Mhd.Proofs.ReplyHead` and `Mhd.Proofs.ReplyMain`.  The specification `Mhd.Http.WellFramed` is the
-  strict response grammar of `Mhd.Proofs.ReplyGrammar`.
+  Statements only; the proofs are in `Mhd.Proofs.RespInv` (response object), `Mhd.Proofs.ReplyParse`
+  (specification lemmas), `Mhd.Proofs.Reply{Head,Fields,Body,MainLemmas,Main,Extra}`.
+  The specification `Mhd.Http.WellFramed` / `Mhd.Http.parseReply` is the strict response grammar of
+  `Mhd.Proofs.ReplyGrammar` (nothing of the model is used there).
+
+  Quantification: every theorem holds for EVERY response object reachable by a finite sequence of legal
+  API calls (theorem `calls_preserve_inv` gives `Inv` for all of them), every connection state `c`
+  (request method, HTTP version, Connection tokens of the request, read-closed / discard flags,
+  previous keep-alive state, daemon date option), every status code accepted by `MHD_queue_response`,
+  every body source that keeps the content contract (`SrcLegal`), every write-buffer size ≥ 128, every
+  date string without CR/LF.  `complete = true` says that the header block fitted into the buffer and
+  the body source ended regularly (otherwise the daemon aborts the connection instead of finishing
+  the message).
 -/
-import Mhd.Proofs.RespInv
+import Mhd.Proofs.ReplyExtra
 
 namespace Mhd.C04
-open Mhd.ReplyStr Mhd.Resp
+open Mhd.ReplyStr Mhd.Resp Mhd.Reply
+open Mhd.Http (WellFramed parseReply Framing normField NoCRLF announcesClose managedName)
+open Mhd.Gen.Reply (sizeUnknown)
 
 /-- Every legal call of the response API (add / delete header, add footer, set options) keeps the
     representation invariant "`flags_auto` says exactly what the header list contains"
-    (`Mhd.Resp.Inv`: one leading Connection header iff HAS_CONNECTION_HDR, close flag ⇒ the value starts
-    with the `close` token, exactly one Transfer-Encoding/Date/Content-Length header iff the respective
-    flag, never both Transfer-Encoding and Content-Length, every stored name and value free of CR/LF …)
-    — for every response object satisfying it, every call with every argument. -/
+    (`Mhd.Resp.Inv`: a single leading Connection header iff HAS_CONNECTION_HDR, close flag ⇒ the value
+    starts with the `close` token, exactly one Transfer-Encoding / Date / Content-Length header iff the
+    respective flag, never both Transfer-Encoding and Content-Length, every stored name and value free
+    of CR/LF, application Content-Length only on HEAD-only responses …) — for every response object
+    satisfying it and every call with every argument.  This is the step that `flags_auto = …` (F4),
+    the footer-blind delete (F4c) and the Date replacement (F4d) break in the unfixed code. -/
 theorem call_preserves_inv (r : Resp) (c : Call) (h : Inv r) (hl : c.Legal) : Inv (applyCall r c).2 :=
   Mhd.Resp.applyCall_inv r c h hl
 
@@ -35,5 +49,147 @@ theorem calls_preserve_inv (r0 : Resp) (cs : List Call)
 example :
     let r := runCalls (Resp.create 5) [.add sTransferEncoding sChunked, .add sConnection [102, 111, 111]]
     r.fa.transEnc = true ∧ r.fa.connHdr = true ∧ r.hdrs.length = 2 := by decide
+
+/-- A completely sent reply is a well-formed, self-consistently framed HTTP/1.x message. -/
+theorem reply_wellFramed (c : Conn) (r : Resp) (st : CState) (allow : Bool) (code0 : Nat) (q : Queued) (src : BodySrc)
+    (date : Option Bytes) (wb : Nat)
+    (hinv : Inv r) (hq : queueResponse c st false false allow code0 r = some q)
+    (hdate : ∀ d, date = some d → NoCRLF d) (hsz : r.totalSize < 2 ^ 64)
+    (hsrc : SrcLegal r wb src) (hwb : 128 ≤ wb)
+    (hcomp : (sendReply c r q src date wb (startPosAfterQueue q r 0)).complete = true) :
+    WellFramed (reqOf c) (sendReply c r q src date wb (startPosAfterQueue q r 0)).wire := by
+  unfold WellFramed
+  rw [Mhd.Reply.reply_parses c r st allow code0 q src date wb hinv hq hdate hsz hsrc hwb hcomp]
+  rfl
+
+/-- What the strict parser finds in it: the status code that was queued; exactly one body delimitation —
+    none for HEAD / 1xx / 204 / 304, chunked (only possible towards an HTTP/1.1 client), Content-Length equal
+    to the size of the response, or close-delimited —; the body is byte for byte what the application
+    supplied (nothing for HEAD / 1xx / 204 / 304); the trailers are the footers of the response. -/
+theorem one_body_delimitation (c : Conn) (r : Resp) (st : CState) (allow : Bool) (code0 : Nat) (q : Queued) (src : BodySrc)
+    (date : Option Bytes) (wb : Nat)
+    (hinv : Inv r) (hq : queueResponse c st false false allow code0 r = some q)
+    (hdate : ∀ d, date = some d → NoCRLF d) (hsz : r.totalSize < 2 ^ 64)
+    (hsrc : SrcLegal r wb src) (hwb : 128 ≤ wb)
+    (hcomp : (sendReply c r q src date wb (startPosAfterQueue q r 0)).complete = true) :
+    ∃ p, parseReply (reqOf c) (sendReply c r q src date wb (startPosAfterQueue q r 0)).wire = some p ∧
+      p.code = q.code ∧
+      p.framing = (if NoBody c q.code then Framing.none
+                   else if (setupReplyProperties c r q.code).2.chunked then Framing.chunked
+                   else if r.totalSize ≠ sizeUnknown then Framing.length r.totalSize else Framing.close) ∧
+      p.body = (if NoBody c q.code then [] else appBody src) ∧
+      (p.framing = Framing.chunked → ver11Compat c.ver = true) ∧
+      (∀ n, p.framing = Framing.length n → p.body.length = n) := by
+  refine ⟨_, Mhd.Reply.reply_parses c r st allow code0 q src date wb hinv hq hdate hsz hsrc hwb hcomp, rfl, rfl, rfl, ?_, ?_⟩
+  · intro hf
+    simp only [expectedFraming] at hf
+    split at hf
+    · cases hf
+    · split at hf
+      · rename_i hch
+        exact ((setup_props c r q.code).2.2.1 hch).2.1
+      · split at hf <;> cases hf
+  · intro n hf
+    simp only [expectedFraming] at hf
+    split at hf
+    · cases hf
+    · rename_i hnb
+      split at hf
+      · cases hf
+      · split at hf
+        · rename_i hkn
+          simp only [hnb, if_false]
+          injection hf with hf
+          subst hf
+          cases src with
+          | buffer data => exact hsrc.1
+          | callback pieces ending =>
+            have := hsrc.2.2.1 hkn
+            simpa [appBody, sumLen] using this
+        · cases hf
+
+/-- No body byte follows the header block of a reply to HEAD or with status 1xx / 204 / 304. -/
+theorem no_body_when_forbidden (c : Conn) (r : Resp) (st : CState) (allow : Bool) (code0 : Nat) (q : Queued) (src : BodySrc)
+    (date : Option Bytes) (wb : Nat)
+    (hq : queueResponse c st false false allow code0 r = some q) (hnb : NoBody c q.code) (h : Bytes)
+    (hh : (buildHeaderResponse c r q.code q.icy date wb).2.2 = some h) :
+    (sendReply c r q src date wb (startPosAfterQueue q r 0)).wire = h := by
+  have hns : (setupReplyProperties c r q.code).2.sendReplyBody = false := by
+    rw [(setup_props c r q.code).2.1]; exact (noBody_iff c q.code).2 hnb
+  obtain ⟨_, e2, _⟩ := buildHeader_eq c r q.code q.icy date wb h hh
+  unfold sendReply
+  rcases hx : buildHeaderResponse c r q.code q.icy date wb with ⟨ka, props, hdr⟩
+  rw [hx] at hh e2
+  simp only at hh e2
+  subst hh
+  simp only
+  split
+  · rfl
+  · rw [e2, hns]; rfl
+
+/-- Application header fields other than Connection, Content-Length, Transfer-Encoding and Date appear in the
+    parsed reply verbatim (the value as stored, leading whitespace aside), exactly once each, in insertion order. -/
+theorem user_headers_verbatim (c : Conn) (r : Resp) (st : CState) (allow : Bool) (code0 : Nat) (q : Queued) (src : BodySrc)
+    (date : Option Bytes) (wb : Nat)
+    (hinv : Inv r) (hq : queueResponse c st false false allow code0 r = some q)
+    (hdate : ∀ d, date = some d → NoCRLF d) (hsz : r.totalSize < 2 ^ 64)
+    (hsrc : SrcLegal r wb src) (hwb : 128 ≤ wb)
+    (hcomp : (sendReply c r q src date wb (startPosAfterQueue q r 0)).complete = true) :
+    ∃ p, parseReply (reqOf c) (sendReply c r q src date wb (startPosAfterQueue q r 0)).wire = some p ∧
+      p.fields.filter (fun f => ! managedName f.name) = ((userHdrs r.hdrs).map toHttp).map normField := by
+  refine ⟨_, Mhd.Reply.reply_parses c r st allow code0 q src date wb hinv hq hdate hsz hsrc hwb hcomp, ?_⟩
+  simp only
+  rw [parsed_unmanaged, allFields_unmanaged c r date _ _ hinv]
+
+/-- Whenever the daemon is going to close the connection after the reply (`connection_reset` with
+    `reuse = false`), the reply carries `Connection: close`. -/
+theorem close_announced (c : Conn) (r : Resp) (st : CState) (allow : Bool) (code0 : Nat) (q : Queued) (src : BodySrc)
+    (date : Option Bytes) (wb : Nat)
+    (hinv : Inv r) (hq : queueResponse c st false false allow code0 r = some q)
+    (hdate : ∀ d, date = some d → NoCRLF d) (hsz : r.totalSize < 2 ^ 64)
+    (hsrc : SrcLegal r wb src) (hwb : 128 ≤ wb) (hup : r.upgrade = false)
+    (hcomp : (sendReply c r q src date wb (startPosAfterQueue q r 0)).complete = true)
+    (hcl : closesAfter c (setupReplyProperties c r q.code).1 = true) :
+    ∃ p, parseReply (reqOf c) (sendReply c r q src date wb (startPosAfterQueue q r 0)).wire = some p ∧
+      announcesClose p.fields = true := by
+  refine ⟨_, Mhd.Reply.reply_parses c r st allow code0 q src date wb hinv hq hdate hsz hsrc hwb hcomp, ?_⟩
+  exact close_in_fields c r date _ _ hinv ((closesAfter_iff c r q.code hup).1 hcl)
+
+/-
+  The converse — "a reply that carries `Connection: close` is followed by the daemon closing the
+  connection" — is NOT proved here.  It needs one more clause of the invariant:
+      r.fa.connClose = false → the stored Connection value has no `close` token (for the grammar's tokenizer),
+  whose preservation is a statement about the two token editors `MHD_str_remove_token_caseless_` /
+  `MHD_str_remove_tokens_caseless_` relative to the grammar's tokenizer.  With that clause as a hypothesis the
+  proof is the mirror image of `close_announced`; the correspondence run checks the equivalence on
+  every explored exchange and call sequence (oracle: close ⇔ `Connection: close`, flags_auto ⇔ list).
+-/
+
+/-- `100 Continue` is sent only to an HTTP/1.1 client that asked for it while the body is still awaited. -/
+theorem continue_only_when_asked (ver : Ver) (remaining : Nat) (expect : Option Bytes)
+    (h : need100Continue ver remaining expect = true) :
+    ver11Compat ver = true ∧ remaining ≠ 0 ∧ ∃ e, expect = some e ∧ strEqCaseless e s100Continue = true := by
+  unfold need100Continue at h
+  split at h
+  · cases h
+  · rename_i hv
+    split at h
+    · cases h
+    · rename_i hr
+      cases expect with
+      | none => cases h
+      | some e =>
+        refine ⟨by simpa using hv, by simpa using hr, e, rfl, h⟩
+
+/-- Non-vacuity of the reply theorems: a response with a forced `Transfer-Encoding: chunked` and an extra
+    Connection token (the F4 sequence), a footer, queued with 200 for a GET HTTP/1.1 request, 5 body bytes. -/
+example :
+    let r := runCalls (Resp.create 5)
+      [.add sTransferEncoding sChunked, .add sConnection [102, 111, 111], .add [88, 45, 65] [118], .foot [88, 45, 84] [116]]
+    let c : Conn := {}
+    ∃ q, queueResponse c .fullReqReceived false false false 200 r = some q ∧
+      SrcLegal r 4096 (.buffer [97, 98, 99, 100, 101]) ∧
+      (sendReply c r q (.buffer [97, 98, 99, 100, 101]) none 4096 (startPosAfterQueue q r 0)).complete = true := by
+  refine ⟨⟨200, false, false, false⟩, by decide, ⟨by decide, by decide⟩, by decide⟩
 
 end Mhd.C04
